@@ -315,6 +315,7 @@ def check(chk, repo, tier):
             for n in ast.walk(ast.Module(body=st.body, type_ignores=[])):
                 if isinstance(n, ast.Call):
                     online_arm_calls.append(dotted(n.func) or "")
+    online_arm_taint(chk, helpers, ve)
     chk.ob("C19.vy_eval-online-literal-only", "helpers.vy_eval/online arm",
            "ast.literal_eval" in online_arm_calls and not any(
                c in EVAL_NAMES for c in online_arm_calls),
@@ -471,9 +472,106 @@ def check(chk, repo, tier):
     ]
 
 
+CLEANERS = {"ast.literal_eval", "int", "len", "sympy.Rational",
+            "fractions.Fraction", "Fraction", "isinstance", "type", "bool",
+            "re.match", "re.fullmatch", "re.search", "re.findall", "ord"}
+TEXT_OK = {"str", "repr", "print"}  # keep the text a string
+
+
+def online_arm_taint(chk, helpers, ve):
+    """In vy_eval's online arm the user text may only be handed to literal
+    parsers / string operations; anything else (sympy.sympify, parse_expr,
+    nsimplify, eval, ...) may evaluate it."""
+    param = ve.args.args[0].arg
+    arms = [st for st in ve.body if isinstance(st, ast.If)
+            and online_test(st.test) == 1]
+    for arm in arms:
+        tainted = {param}
+        body = ast.Module(body=arm.body, type_ignores=[])
+        changed = True
+        while changed:
+            changed = False
+            for n in ast.walk(body):
+                if isinstance(n, ast.Assign) and len(n.targets) == 1 \
+                        and isinstance(n.targets[0], ast.Name):
+                    v = n.value
+                    cleaned = isinstance(v, ast.Call) and (
+                        dotted(v.func) or "") in CLEANERS
+                    if not cleaned and any(
+                            isinstance(m, ast.Name) and m.id in tainted
+                            for m in ast.walk(v)) \
+                            and n.targets[0].id not in tainted:
+                        tainted.add(n.targets[0].id)
+                        changed = True
+        for n in ast.walk(body):
+            if not isinstance(n, ast.Call):
+                continue
+            d = dotted(n.func) or ast.unparse(n.func)
+            args = list(n.args) + [k.value for k in n.keywords]
+            hit = [a for a in args if any(
+                isinstance(m, ast.Name) and m.id in tainted
+                for m in ast.walk(a))]
+            if not hit:
+                continue
+            # method call on the text itself (item.strip()) is a string op
+            if isinstance(n.func, ast.Attribute) and isinstance(
+                    n.func.value, ast.Name) and n.func.value.id in tainted:
+                continue
+            ok = d in CLEANERS or d in TEXT_OK
+            chk.ob("C19.online-text-sinks", f"helpers.vy_eval:{d}(...)", ok,
+                   f"online, the user text reaches `{ast.unparse(n)[:60]}`; "
+                   f"`{d}` is not a literal parser and may evaluate the text "
+                   "(sympy's string parsers use eval)", helpers.rel,
+                   n.lineno,
+                   witness="input `1/2+__import__('os').system('x')`",
+                   sample={"callee": d})
+
+
+def handler_expr_safe(e):
+    """expression that cannot raise: constants, names, string building from
+    traceback.format_exc() / str() / repr() / type(x).__name__"""
+    if isinstance(e, (ast.Constant, ast.Name)):
+        return True
+    if isinstance(e, ast.JoinedStr):
+        return all(handler_expr_safe(v) for v in e.values)
+    if isinstance(e, ast.FormattedValue):
+        return handler_expr_safe(e.value)
+    if isinstance(e, ast.BinOp) and isinstance(e.op, ast.Add):
+        return handler_expr_safe(e.left) and handler_expr_safe(e.right)
+    if isinstance(e, ast.Attribute):
+        return e.attr in ("__name__", "online_output") and \
+            handler_expr_safe(e.value) or dotted(e) is not None and \
+            e.attr in ("__name__",)
+    if isinstance(e, ast.Call):
+        d = dotted(e.func) or ""
+        if d in ("traceback.format_exc", "str", "repr", "type"):
+            return all(handler_expr_safe(a) for a in e.args)
+    return False
+
+
 def error_capture(chk, main, ex):
     """Every top-level statement of execute_vyxal that runs program-dependent
     code is inside a try with an online-recording handler."""
+    def recording_stmts(stmts, depth=0):
+        """(records?, unsafe expressions) following calls to helpers defined
+        in main.py"""
+        rec = False
+        unsafe = []
+        for m in ast.walk(ast.Module(body=stmts, type_ignores=[])):
+            if isinstance(m, ast.AugAssign) and "online_output[2]" in \
+                    ast.unparse(m.target):
+                rec = True
+                if not handler_expr_safe(m.value):
+                    unsafe.append(m)
+            elif isinstance(m, ast.Call) and isinstance(m.func, ast.Name) \
+                    and m.func.id in main.functions and depth < 2 \
+                    and m.func.id != ex.name:
+                r2, u2 = recording_stmts(main.functions[m.func.id].body,
+                                         depth + 1)
+                rec = rec or r2
+                unsafe += u2
+        return rec, unsafe
+
     def handler_ok(tr: ast.Try):
         for h in tr.handlers:
             t = dotted(h.type) if h.type is not None else "BaseException"
@@ -481,13 +579,20 @@ def error_capture(chk, main, ex):
                 continue
             for st in h.body:
                 if isinstance(st, ast.If) and online_test(st.test) == 1:
-                    records = any(
-                        isinstance(m, ast.AugAssign)
-                        and "online_output[2]" in ast.unparse(m.target)
-                        for m in ast.walk(ast.Module(body=st.body,
-                                                     type_ignores=[])))
+                    records, unsafe = recording_stmts(st.body)
                     reraises = any(isinstance(m, ast.Raise) for m in ast.walk(
                         ast.Module(body=st.body, type_ignores=[])))
+                    for u in unsafe:
+                        chk.ob("C19.handler-cannot-raise",
+                               f"main:{' '.join(ast.unparse(u).split())[:70]}",
+                               False,
+                               "while recording the error the handler "
+                               "evaluates an expression that can itself raise "
+                               "(indexing, foreign call): the original error "
+                               "is then lost and the new one propagates",
+                               main.rel, u.lineno,
+                               witness="an exception raised without "
+                                       "arguments (bare assert)")
                     if records and not reraises:
                         return True
         return False
